@@ -193,3 +193,25 @@ theorem keysFirst_counterexample :
 #print axioms Klev.HeadRead.spec_l0
 
 end Klev.HeadRead
+
+namespace Klev.HeadRead
+open Klev
+
+/-- Repaired: the answer is the sequential answer in the state of the look at the (empty) head. -/
+theorem gbtRemember_linearizable (seg : List Msg) (ts : Int) :
+    gbtRemember seg ts = firstAt (seg ++ []) ts := by
+  simp [gbtRemember]
+
+/-- **As it was (D21)**: segment `[time 5]`, the head empty when looked at, a Publish of a message with
+time 7 lands, the lookup asks for time 10: it returns the message with time 7 — earlier than the
+time asked for, and the sequential answer neither before the Publish nor after it (both "not found"). -/
+theorem gbtRelook_counterexample :
+    gbtRelook [⟨0, 5, [], [1]⟩] [⟨1, 7, [], [2]⟩] 10 = some ⟨1, 7, [], [2]⟩ ∧
+    firstAt ([⟨0, 5, [], [1]⟩] ++ []) 10 = none ∧
+    firstAt ([⟨0, 5, [], [1]⟩] ++ [⟨1, 7, [], [2]⟩]) 10 = none ∧
+    gbtRemember [⟨0, 5, [], [1]⟩] 10 = none := by
+  decide
+
+#print axioms gbtRemember_linearizable
+#print axioms gbtRelook_counterexample
+end Klev.HeadRead
